@@ -536,6 +536,14 @@ class SchemaGen(object):
                 s.subscription = sub.name
                 for _ in range(rng.randint(1, 3)):
                     sub.fields.append(self.gen_field(sub, leafs + composite))
+        # a root type is an ordinary object type: a third of the schemas refer back to the query root from an
+        # object type (Relay's `type Payload { query: Query }`); side stream, the main stream stays what it was
+        side = random.Random("backref:%s:%d" % (",".join(sorted(s.types)), len(self.field_pool)))
+        if objs and side.random() < 0.35 and self.features.get("back_reference_to_root", True):
+            o = side.choice(objs)
+            f = SField(self.fresh("backToRoot"), named(q.name))
+            self.field_pool[f.name] = f
+            o.fields.append(f)
 
     def rename_type(self, old, new):
         """Rename a type everywhere it is referenced (types dict order kept)."""
